@@ -4,6 +4,8 @@
 package chain
 
 import (
+	"sync"
+
 	"fmt"
 	"math"
 	"time"
@@ -41,6 +43,27 @@ type NodeKeys struct {
 
 // NewNodeKeys derives deterministic node keys from a name.
 func NewNodeKeys(name string) *NodeKeys {
+	nk := newNodeKeys(name)
+	knownKeysMu.Lock()
+	knownKeys[nk.Consensus.Public()] = nk
+	knownKeysMu.Unlock()
+	return nk
+}
+
+// knownKeys: every node key set ever derived in this process, by consensus key (keys are a pure function of the
+// name, so the map never holds conflicting entries); lets the engine sign for validators that registered at run time.
+var (
+	knownKeysMu sync.Mutex
+	knownKeys   = map[signature.PublicKey]*NodeKeys{}
+)
+
+func lookupKeys(pk signature.PublicKey) *NodeKeys {
+	knownKeysMu.Lock()
+	defer knownKeysMu.Unlock()
+	return knownKeys[pk]
+}
+
+func newNodeKeys(name string) *NodeKeys {
 	return &NodeKeys{
 		Name:      name,
 		ID:        memorySigner.NewTestSigner("verif node id " + name),
